@@ -650,6 +650,10 @@ def assemble(unit, workdir, vacuity_twins=False):
         if item.get("hoisted") and not ex.get("twin_of"):
             der = ex["opts"].get("hoisted_derive", "Clone,Copy")
             emit("\n".join(("#[derive(%s)]\n" % der if (l.startswith("pub enum") or l.startswith("pub struct")) else "") + l for l in item["hoisted"].split("\n")))
+        if hdr and ex["opts"].get("impl_as"):
+            # impl_as=TYPE: the method is emitted into `impl TYPE` - a stand-in of the real type declared in the unit (used when the
+            # prelude already holds an abstract stand-in of the same type whose methods are the ones extracted here)
+            hdr = re.sub(r"^impl(\s*<[^>]*>)?\s+[A-Za-z_][A-Za-z0-9_:]*", lambda m: "impl" + (m.group(1) or "") + " " + ex["opts"]["impl_as"], hdr, count=1)
         if hdr:
             emit(hdr + " {")
             if item.get("impl_assoc"):
